@@ -330,7 +330,7 @@ def replay_on_stock_loop(case: Case, actions: t.Sequence[str]) -> t.Tuple[str, t
     deliveries = [a for a in actions if a != 'step']
     if any(a.startswith('timer@') for a in deliveries):
         raise ValueError('schedules with timers are not replayed on the stock loop (real clock)')
-    given_inputs = [dict(i) for i in case.inputs]
+    given_inputs = [{k: (W.OPAQUE if v == '@opaque' else v) for k, v in i.items()} for i in case.inputs]
 
     async def main():
         loop = asyncio.get_running_loop()
